@@ -19,6 +19,7 @@ global size_of usize == 8;
 //@@ INCLUDE lib/mod2_ring.rs
 //@@ INCLUDE lib/mod2_mem.rs
 //@@ INCLUDE lib/mp_stubs.rs
+//@@ INCLUDE lib/mp_arith.rs
 //@@ INCLUDE lib/mp_lemmas.rs
 //@@ SIG integer/primitive/double_word.rs
 //@@ SIG integer/primitive/split_dword.rs
